@@ -45,17 +45,17 @@ P = {
  "C09": dict(
   tech="model-based one-step checks of the udp/icmp/raw socket API against a ghost FIFO (states reached through symbolic public API scripts), interface-level delivery/egress harnesses with a frame-capturing device",
   text="For UDP (1..3 metadata slots, payload ring 0..8, IPv4 and IPv6 endpoints), ICMP and raw sockets: an accepted send appends exactly (addressing, bytes), a refused one leaves the queue unchanged, dispatch with emit=Err re-offers the head unmodified and with emit=Ok pops exactly the head; process appends exactly one whole datagram with source/destination metadata or nothing; recv/peek hand out datagrams whole and in order, a short user buffer yields Truncated; at the interface a datagram for a bound socket is delivered exactly once with exact payload and metadata, socket_egress hands a queued datagram to the device exactly once and keeps it queued under device back-pressure.",
-  note="ICMP/raw use concrete rings (20/44 bytes) and 2-step scripts; ring wrap/padding is covered by the UDP and PacketBuffer harnesses. One known finding (ICMP errors quoting only 8 octets are not delivered to a UDP-bound ICMP socket).",
+  note="ICMP/raw use concrete rings (20/44 bytes) and 2-step scripts; ring wrap/padding is covered by the UDP and PacketBuffer harnesses. Five defects fixed (PacketBuffer padding, IP-version mix-ups in UDP/raw dispatch, ICMP errors with truncated quotes never delivered to port-bound ICMP sockets).",
   ref="DESIGN.md 5/C09, 14"),
  "C10": dict(
   tech="dispatch_ip / dispatch / socket_egress on symbolic packets with a frame-capturing TxToken; harness-side independent well-formedness checks and RFC 1071 reference checksums; reply-source checks in the ingress harnesses",
   text="For UDP, TCP (SYN with MSS+WS+SACK-permitted(+TS), data with TS and a SACK block), ICMPv4 echo and ARP replies with all field values symbolic (Ethernet, MTU 1500, tx checksums on): the captured frame has the exact length, correct Ethernet addresses/ethertype, IPv4 ihl/total length/ttl/protocol/addresses, a header checksum and L4 checksums that verify under an independent reference, TCP data offset and an option list that is well-formed, terminated and zero-padded; every reply built on ingress (RST, ICMP errors, echo replies, NDISC/ARP) has a source that is one of the interface's own unicast addresses.",
-  note="Concrete MTU 1500 and concrete time (symbolic values exhaust 8 GB); payloads 2-4 bytes; IPv6 packets are checked at emit level (iface_egress6.rs: the IPv6 header and upper-layer octets produced by the emit calls dispatch_ip makes - echo reply, port unreachable incl. the 1280-octet quote rule, neighbor advertisement, MLD report with router alert, UDP from a socket, TCP RST, MSS vs. small MTU; multicast MAC mapping), because whole IPv6 frames through dispatch_ip exceed 16-24 GB; neighbor solicitations and IGMP reports are not covered; 6LoWPAN frame layout is checked through C20/C06 templates; oversize (fragmented) frames are C12's grid.",
+  note="Concrete MTU 1500 and concrete time (symbolic values exhaust 8 GB); payloads 2-4 bytes; IPv6 packets are checked at emit level (iface_egress6.rs: the IPv6 header and upper-layer octets produced by the emit calls dispatch_ip makes - echo reply, port unreachable incl. the 1280-octet quote rule, neighbor advertisement, MLD report with router alert, UDP from a socket, TCP RST, MSS vs. small MTU; multicast MAC mapping), because whole IPv6 frames through dispatch_ip exceed 16-24 GB; neighbor solicitations and IGMP reports are not covered; 6LoWPAN frame layout is checked through C20/C06 templates; oversize (fragmented) frames are C12's grid (which serves C10 in the thorough tier). One known finding (echo reply sourced from ::1, see C11).",
   ref="DESIGN.md 5/C10, 13"),
  "C11": dict(
   tech="process_ip / process_ethernet on byte-template packets with fully symbolic IPv4 addresses (32 bits each) and IPv6 addresses (9/4 symbolic octets covering every class), ports, flags, against a harness-side address classification",
   text="For every source/destination class (own unicast, foreign unicast, subnet and limited broadcast, joined/unjoined multicast, all-nodes, solicited-node, unspecified, loopback) and every port relation: packets not addressed to the interface are neither delivered nor answered; a socket only receives traffic matching its endpoint; no TCP reset or ICMP error is sent towards or because of a non-unicast address nor in answer to a reset or ICMP error; TCP to broadcast/multicast never changes a socket; frames for another station are ignored; packets with a wrong IP/L4 checksum have no effect at all.",
-  note="One socket per harness (three in the set exhaust the solver); raw-IP medium for the IP layer, Ethernet for the link filter; 802.15.4 PAN filtering is in C20/C03's harnesses. Two known findings (ICMPv6 Parameter Problem code 1 to multicast, enforced by /repo's own test; ::1 accepted without being configured).",
+  note="One socket per harness (three in the set exhaust the solver); raw-IP medium for the IP layer, Ethernet for the link filter; 802.15.4 PAN filtering is in C20/C03's harnesses. Three known findings (ICMPv6 Parameter Problem code 1 to multicast, enforced by /repo's own test; ::1 accepted as destination without being configured; an echo request from source ::1 to a multicast group answered from ::1), each checked by a concrete-shape finding harness. IPv6 harnesses run with one socket type per build configuration.",
   ref="DESIGN.md 5/C11, 14"),
  "C14": dict(
   tech="model-based one-step checks of every public RingBuffer / PacketBuffer operation from arbitrary (API-reachable) states against a ghost queue",
